@@ -1376,7 +1376,9 @@ class VariationalWassersteinDistance(darsia.EMD):
         self._compatibility_check(img_1, img_2)
 
         # Determine difference of distributions and define corresponding rhs
-        mass_diff = img_2.img - img_1.img
+        # NOTE: Take the difference in floating point arithmetic; for unsigned integer
+        # images (e.g. 8-bit photographs) the difference would wrap around.
+        mass_diff = img_2.img.astype(float) - img_1.img.astype(float)
         flat_mass_diff = np.ravel(mass_diff, "F")
 
         # Main method
